@@ -18,4 +18,7 @@ try:
         print('[%s] %s rc=%d :: %s' % (name, p, r.returncode, ' | '.join(first[:3])[:420]))
 finally:
     subprocess.call('git -C /repo checkout -- .', shell=True)
-json.dump(res, open(os.path.join(d, 'check_results.json'), 'w'), indent=1)
+f = os.path.join(d, 'check_results.json')
+old = json.load(open(f)) if os.path.exists(f) else {}
+old.update(res)      # a partial re-run keeps the other properties' last results
+json.dump(dict(sorted(old.items())), open(f, 'w'), indent=1)
